@@ -1003,7 +1003,7 @@ fn replay(ctx: &Ctx, p: &std::path::Path) {
                 }
             }
             let listing: Vec<E2> = w["edges"].as_array().unwrap().iter().map(|e| (e[0].as_u64().unwrap() as usize, e[1].as_u64().unwrap() as usize, e[2].as_u64().unwrap() as u32, if e[3].as_str() == Some("S") { 1 } else { 0 })).collect();
-            println!("store: labels {:?}; relationships in creation order {:?}", w["labels"], w["edges"]);
+            println!("store: labels {}; relationships in creation order (src idx, dst idx, w, type) {}", w["labels"], w["edges"]);
             let (store, ids) = build_store(n, labels, &listing).expect("store");
             let projs = make_projs(n, &ids, labels, &listing);
             let (tx, rx) = std::sync::mpsc::channel();
